@@ -50,6 +50,44 @@ CLAIMED["C06"] = {
     "design_ref": "DESIGN.md section 6, C06",
 }
 
+CLAIMED["C08"] = {
+    "text": "Bounded symbolic model checking of the interrupt step: the real `eval` loop is executed symbolically with "
+            "eval_expr replaced by a recording stub, from an arbitrary frame state (1..2 frames, 1..3 pending entries, "
+            "the top entry in each of the five ExpressionState shapes) with the interrupt flag, the tick counter and "
+            "both limits symbolic. z3 decides on every path that an interrupted iteration returns Interrupted only "
+            "when the flag is set, runs no step, clears the flag and leaves entries, values, blocks and frames "
+            "identical, and that the next eval() (the resume) hands the stub exactly the interrupted entry with its "
+            "state. By induction on the number of interrupts, interrupted-and-resumed runs pass through the same "
+            "state sequence. A native sweep (interrupt at every tick of two programs via the cfg hook, resume each "
+            "time) is the user-visible oracle and replay.",
+    "note": "Trusted: rsx semantics, std models, z3; 'a step is a function of the machine state' (the stub). The atomic "
+            "flag is sequential here (cross-thread ordering is C31). The tick counter differs between the runs by "
+            "design; programs that hit the tick limit are outside the claim.",
+    "design_ref": "DESIGN.md section 6, C08",
+}
+
+CLAIMED["C25"] = {
+    "text": "Bounded symbolic model checking of the budget step: the real `eval` loop is executed for 2 (quick) / 3 "
+            "(thorough) consecutive iterations with eval_expr stubbed and ticks / tick_limit / stack_limit symbolic "
+            "64-bit: every iteration that pops an entry advances ticks by exactly one before any evaluation work, a "
+            "step runs only while ticks < tick_limit and stack.len() <= stack_limit, and the limit errors run no step "
+            "and restore the state; hence at most tick_limit steps run. The real bodies of the sandbox entry points "
+            "(run_sandboxed_playground, the sandboxed test runner) are executed up to their first evaluation call, "
+            "which must see tick_limit = Some, stack_limit = Some, enforce_sandbox = true.",
+    "note": "Trusted: rsx, std models, z3. The cost of a single step (a built-in looping over a long string, deep "
+            "display recursion) and blocking built-ins other than those C24 covers are outside the claim. Env::new is "
+            "modelled by the limit fields of its own struct literal.",
+    "design_ref": "DESIGN.md section 6, C25",
+}
+
+try:
+    import sys as _sys
+    _sys.path.insert(0, os.path.dirname(os.path.abspath(__file__)))
+    from claims_extra import EXTRA as _EXTRA
+    CLAIMED.update(_EXTRA)
+except ImportError:
+    pass
+
 NOT_YET = "check not built yet in this revision of /verif (planned, see DESIGN.md section 6)"
 
 NA = {
